@@ -70,7 +70,7 @@ BOUNDS = {
     "primitives": "any range > 0, azimuth in [0,2pi), elevation in [-pi/2,pi/2], slew angle in [0,pi], any truth values / reals for the others",
     "vismag-* (limiting magnitude on real geometry)": "optical, ground and space hosts, full-sky masks, no minimum range; any Sun / target / sensor positions with "
                                                      "Sun != target != sensor and phase angle < pi; any area > 0 and reflectivity > 0; relative velocity of "
-                                                     "target and sensor zero; any limiting magnitude that the reference target reaches at some phase angle in "
+                                                     "target and sensor zero; range primitive and length of the slant-range vector of the reference target = distance of the positions; any limiting magnitude that the reference target reaches at some phase angle in "
                                                      "(0, pi) (given as ulim = cosine of that phase angle, -1 < ulim < 1); the limit is parametrised against one "
                                                      "target per scene: the primary (collect, 0 background), the single background target (collect, primary's "
                                                      "magnitude a free variable) or the estimate (predict); quick: 3 of the 6 host/scene combinations",
@@ -103,13 +103,15 @@ ASSUMPTIONS = [
     "and must be the host's Julian date",
     "vismag-* scenes, reference target only: calculatePhaseAngle / subtendedAngle / apparentVisualMagnitude / scipy norm are NOT stubbed; numpy arccos -> engine "
     "contract (angle in [0, pi] with the given cosine, strictly decreasing, functional); scipy norm -> non-negative root of the sum of squares; "
+    "maths.safeArccos -> arccos (they differ only beyond +-1, which a normalised dot product does not reach in exact arithmetic); "
     "lambertianPhaseFunction -> G(phi): functional, strictly decreasing on [0, pi], > 0 below pi, 0 at pi (true of 2((pi-phi)cos(phi)+sin(phi))/(3 pi^2): derivative "
     "-2(pi-phi)sin(phi)/(3 pi^2)); numpy log10 (sensor_utils) -> functional, strictly increasing; domain conditions met on the way are assumed (divisors != 0, "
     "log10 argument > 0, arccos argument in [-1, 1])",
     "vismag-* limit: detectable_vismag := m_sun - 2.5 log10(A rho G(arccos(ulim)) / R^2) of the reference target (harness's own formula, R = distance of the position "
-    "vectors); oracle in the proof: (Sun - target).(sensor - target) >= ulim |Sun - target| |sensor - target|; oracle in the replay: the explicit Lambertian-sphere "
+    "vectors); oracle in the proof: (Sun - target).(sensor - target) / (|Sun - target| |sensor - target|) >= ulim; oracle in the replay: the explicit Lambertian-sphere "
     "magnitude at the phase angle computed from the positions, compared with the limit; the replay runs the unstubbed chain",
-    "vismag-* solver use: one query per conjunct of a goal, constraints cut to the conjunct's cone of influence (constraints sharing no variable, transitively, with "
+    "vismag-* solver use: the geometric conjuncts are asked in a portfolio (z3 default, nlsat alone, with the recorded domain facts dropped, reversed order; any unsat "
+    "is conclusive, sat only from the complete set); one query per conjunct of a goal, constraints cut to the conjunct's cone of influence (constraints sharing no variable, transitively, with "
     "the goal are dropped: they are over other variables and satisfiable on a feasible path); counterexample search only: a candidate is first looked for with the "
     "reference target at the origin, the sensor on the x axis and the Sun in the x-y plane, and is replayed like any other",
     "calculateRadarCrossSection -> q^4 with q >= 0 a variable and (q^4)**0.25 = q (non-negative fourth root)",
@@ -589,7 +591,12 @@ class _Shadows:
                    checkGroundSensorLightingConditions=W.checkGroundSensorLightingConditions, **self._magnitude_chain(W)),
         ]
         if W.vischain and W.sym:
+            from resonaate.physics import maths as MA
+
             self.ctx.append(shadow(SU, log10=W.log10))
+            # the guarded arccos differs from arccos only for arguments beyond +-1, which exact arithmetic never produces for a normalised
+            # dot product (Cauchy-Schwarz); nlsat does not refute that side of the guard in time
+            self.ctx.append(shadow(MA, safeArccos=lambda x: np.arccos(x)))
         if with_async:
             from resonaate.parallel import tasking_execution as TE
 
@@ -798,6 +805,13 @@ class Scene:
             tgt = self.estimate if ref == "E" else self.targets[int(ref[1:])]
             d = [tgt.eci_state[i] - host.eci_state[i] for i in range(3)]
             if W.sym:
+                # the reference target's slant-range vector is the position difference in another frame: same length, and the range primitive
+                # is that length (a chain that takes the range from there must see the same number)
+                d2 = sum((_raw(x) * _raw(x) for x in d), rv(0))
+                rp = z3.Real(f"rng_{host.tag}_{ref}")
+                link = [rp * rp == d2, sum((z3.Real(f"sez_{host.tag}_{ref}_{i}") * z3.Real(f"sez_{host.tag}_{ref}_{i}") for i in range(3)), rv(0)) == d2]
+                W.pre += link
+                assume(*link)
                 rng = W.norm_true(d)
                 lim = lambert_sphere_magnitude(tgt.visual_cross_section, tgt.reflectivity, W.lambert(SReal(p["ulim"]).arccos()), rng, W.log10)
             else:
@@ -829,7 +843,7 @@ def magnitude_within_limit(W, p, t):
 
     Replay (floats): phase angle at the target between the directions to the Sun and to the sensor, Lambertian-sphere magnitude at the true
     range, compared with the limit.  Proof (z3 terms): the magnitude of a given target at a given range grows strictly with the phase angle,
-    so 'not fainter than the magnitude at phase angle arccos(ulim)' is cos(phase angle) >= ulim, i.e. d1.d2 >= ulim |d1| |d2|."""
+    so 'not fainter than the magnitude at phase angle arccos(ulim)' is cos(phase angle) >= ulim, i.e. d1.d2 / (|d1| |d2|) >= ulim."""
     h = p["h"]
     if p.get("vmref") is None:
         raise Unsupported(f"limiting magnitude of {h} is not parametrised in this scene")
@@ -839,10 +853,14 @@ def magnitude_within_limit(W, p, t):
     d1 = [sun[i] - tp[i] for i in range(3)]
     d2 = [hp[i] - tp[i] for i in range(3)]
     if W.sym:
-        dot = d1[0] * d2[0] + d1[1] * d2[1] + d1[2] * d2[2]
-        nn = W.norm_true(d1) * W.norm_true(d2)
-        W.margins.append((_raw(dot), _raw(SReal(p["ulim"]) * nn), _raw(nn)))
-        return _raw(dot >= SReal(p["ulim"]) * nn)
+        # cosine of the angle at the target, written with numpy's vdot and scipy's norm so that - when the code under test forms the same
+        # quotient - the solver meets one term instead of two equal ones (it then needs no non-linear reasoning at all)
+        from scipy.linalg import norm as scipy_norm
+
+        v1, v2 = np.array(d1, dtype=object), np.array(d2, dtype=object)
+        u = np.vdot(v1, v2) / (scipy_norm(v1) * scipy_norm(v2))
+        W.margins.append((_raw(u), p["ulim"], rv(1)))
+        return _raw(u >= SReal(p["ulim"]))
     n1, n2 = (math.sqrt(sum(float(x) ** 2 for x in d)) for d in (d1, d2))
     if n1 == 0 or n2 == 0:
         return False
@@ -1104,10 +1122,34 @@ def _model_values(m, exprs, names, vecs):
     return vals
 
 
-def _cone(goal, cons):
+def _vars_of(t, memo):
+    """Names of the uninterpreted constants of t; memo (term id -> frozenset) is shared over the terms of one path, whose sub-terms overlap
+    heavily (the terms are kept alive by the caller, so ids are not reused)."""
+    i = t.get_id()
+    hit = memo.get(i)
+    if hit is not None:
+        return hit
+    stack = [(t, False)]
+    while stack:
+        e, done = stack.pop()
+        j = e.get_id()
+        if j in memo:
+            continue
+        ch = e.children()
+        if not ch:
+            memo[j] = frozenset([str(e)]) if (z3.is_const(e) and e.decl().kind() == z3.Z3_OP_UNINTERPRETED) else frozenset()
+        elif done:
+            memo[j] = frozenset().union(*[memo[c.get_id()] for c in ch])
+        else:
+            stack.append((e, True))
+            stack.extend((c, False) for c in ch if c.get_id() not in memo)
+    return memo[i]
+
+
+def _cone(goal, cons, memo=None):
     """Cone of influence: the constraints connected with the goal through shared variables (transitively).  The rest is over other
     variables and satisfiable on a feasible path, so dropping it changes no verdict."""
-    V = set(free_vars(goal))
+    V = set(free_vars(goal) if memo is None else _vars_of(goal, memo))
     cs = cons if (cons and isinstance(cons[0], tuple)) else [(c, free_vars(c)) for c in cons]  # (constraint, its variables) pairs are accepted
     keep = [not fv for _, fv in cs]
     changed = True
@@ -1306,6 +1348,23 @@ def _tag(r):
     return "".join("T" if x else "F" for x in r.path.decisions)
 
 
+def _portfolio(goal, use, domain_ids):
+    """The geometric queries of the vischain scenes, asked several ways (measured: on the very same query z3's default pipeline needs 0.02 s or
+    14 s or no answer in 20 s depending on one unrelated constraint more or less; nlsat alone decides most in 0.03 s and a few not at all).
+    Any 'unsat' is conclusive (dropping constraints only weakens the hypotheses); 'sat' is taken only from the complete constraint set.
+    Returns (Verdict, how)."""
+    slim = [c for c in use if c.get_id() not in domain_ids]
+    attempts = [("z3 default", use, None, 2500), ("nlsat", use, "qfnra-nlsat", 2500), ("z3 default, domain facts dropped", slim, None, 2500),
+                ("nlsat, domain facts dropped", slim, "qfnra-nlsat", 2500), ("z3 default, constraints in reverse order", use[::-1], None, 2500),
+                ("z3 default, 20 s", use, None, 20000)]
+    v = None
+    for how, cs, tactic, ms in attempts:
+        v = refute(goal, cs, ms, tactic)
+        if v.status == "unsat" or (v.status == "sat" and cs is not slim):
+            return v, how
+    return Verdict("unknown", None, v.secs, v.reason), "all"
+
+
 def _geometry_pins(sc):
     """Search restriction for counterexamples of vischain scenes (see o_scene): reference target at the origin (then: at x = 2), sensor on the
     x axis, Sun in the x-y plane (the constraint depends on differences of positions only).  List of alternatives, tried in order."""
@@ -1344,7 +1403,7 @@ def o_scene(rep, mode, specs, nbg, max_paths=20000, expect_reasons=None, need_bg
 
     # vischain scenes: branch feasibility questions over the position vectors are answered in milliseconds on the unchanged code; a short limit
     # keeps a changed chain from eating the budget (no answer in time = both sides are explored, which is sound)
-    res = explore(run, max_paths=max_paths, max_depth=400, branch_timeout_ms=2500 if any(s.vischain for s in specs) else 10000)
+    res = explore(run, max_paths=max_paths, max_depth=400, branch_timeout_ms=1500 if any(s.vischain for s in specs) else 10000)
     rep.note(f"{mode} {[(s.kind, 'space' if s.space else 'ground') for s in specs]} nbg={nbg}: paths={len(res)}")
     seen_reasons, n_obs_prim, n_obs_bg, n_noslew, n_pred = set(), 0, 0, 0, 0
     samples = {
@@ -1400,7 +1459,8 @@ def o_scene(rep, mode, specs, nbg, max_paths=20000, expect_reasons=None, need_bg
         # class there (measured: the conjunction 10 s, the conjuncts one by one 0.02 s each)
         if W.vischain:
             groups = []
-            cons_fv = [(c, free_vars(c)) for c in cons]
+            memo, alive = {}, []  # every term the memo has seen stays referenced while the memo is in use (z3 reuses the ids of freed terms)
+            cons_fv = [(c, _vars_of(c, memo)) for c in cons]
             for n, g in active.items():
                 parts = _conjuncts_of(g)
                 groups += [(f"path[{tag}]:{n}" + (f"#{i}" if len(parts) > 1 else ""), {n: c}) for i, c in enumerate(parts)]
@@ -1416,18 +1476,29 @@ def o_scene(rep, mode, specs, nbg, max_paths=20000, expect_reasons=None, need_bg
             regions = {FINDING_BG_NOSLEW: z3.And(z3.Not(z3.And(*sl)), *[g for n, g in grp.items() if n.split("@")[0] != "O1-slew-reach"])} if sl else None
             nv, ne = len(rep.violations), sum(1 for i in rep.items if i["verdict"] == "error")
             use, full = cons, cons
+            what = "; ".join(sorted({samples.get(n.split('@')[0], n) for n in grp}))
             if W.vischain:
-                use = _cone(conj, cons_fv)
-                if any(v.startswith("ulim_") for v in free_vars(conj)):
+                alive.append(conj)
+                use = _cone(conj, cons_fv, memo)
+                if any(v.startswith("ulim_") for v in _vars_of(conj, memo)):
+                    v, how = _portfolio(conj, use, {c.get_id() for c in r.path.domain})
+                    if v.status == "unsat":
+                        rep._item(label, "prove", v, {"how": how})
+                        rep.sample({"obligation": f"{rep.ob}:{label}", "verdict": v.status, "what": what})
+                        continue
                     # counterexample search only (never a proof): nlsat finds models of the 9-coordinate geometry slowly, so a candidate is
-                    # first looked for with the target at the origin of the coordinates, the sensor on the x axis and the Sun in the x-y plane;
-                    # only when that gives one are the pins kept (the candidate is replayed like any other); otherwise the unrestricted query decides
+                    # looked for with the target at the origin of the coordinates, the sensor on the x axis and the Sun in the x-y plane; only
+                    # when that gives one are the pins kept (the candidate is replayed like any other)
+                    pinned = False
                     for pins in _geometry_pins(sc):
                         if refute(conj, use + pins, 5000).status == "sat":
-                            use, full = use + pins, list(cons) + pins
+                            use, full, pinned = use + pins, list(cons) + pins, True
                             break
+                    if not pinned and v.status != "sat":
+                        rep.undecided(label, f"no verdict from the portfolio (default / nlsat / domain facts dropped / reversed; last: {v.reason}) and no pinned candidate")
+                        continue
             rep.prove(label, conj, use, timeout_ms=20000, inputs=_mk_inputs(W, sc, mode, conj, full, {"goals": sorted(grp)}), replay=replay_scene,
-                      regions=regions, sample="; ".join(sorted({samples.get(n.split('@')[0], n) for n in grp})))
+                      regions=regions, sample=what)
             if len(rep.violations) > nv:
                 det = rep.violations[-1].get("detail") or {}
                 bad = {n.split("@")[0] for n in (det.get("violated") or [])} or {n.split("@")[0] for n in grp}
@@ -1667,7 +1738,7 @@ def obligations(tier):
             f"O1-O3 collectObservations, {_name(sp)}, 1 primary + {1 if sp.optical else nbg} background", 900 if tier != "quick" else 240)
         add(f"predict-{_name(sp)}", (lambda sp: lambda rep: o_scene(rep, "predict", [sp], 0))(sp), f"O4 predictObservation, {_name(sp)}", 240)
     # limiting magnitude on the real Sun / target / sensor geometry (phase angle from the position vectors)
-    vis = ([("collect", False, "primary"), ("collect", True, "background"), ("predict", True, "primary")] if tier == "quick" else
+    vis = ([("collect", False, "primary"), ("collect", False, "background"), ("predict", True, "primary")] if tier == "quick" else
            [(m, s, "primary") for m in ("collect", "predict") for s in (False, True)] + [("collect", s, "background") for s in (False, True)])
     for mode, space, ref in vis:
         sp = Spec("optical", space, reduced=True, vischain=ref)
